@@ -567,6 +567,48 @@ func fcRequest(dir, sid, in string) string {
 	return res + " || " + snap
 }
 
+// fcRetry serves the history on a fresh store; during the Finish of the LAST request the store
+// directory is away (so the save fails), then it is put back and the same engine's Finish is called
+// again.  Returns whether the first Finish failed and the session the store holds afterwards.
+func fcRetry(sid string, inputs []string, flush bool, inject bool) (failed bool, snap string, err error) {
+	base, err := os.MkdirTemp("/tmp", "fscrash-retry-")
+	if err != nil {
+		return false, "", err
+	}
+	defer os.RemoveAll(base)
+	dir := filepath.Join(base, "store")
+	if err := os.Mkdir(dir, 0700); err != nil {
+		return false, "", err
+	}
+	for _, in := range inputs[:len(inputs)-1] {
+		fcRequest(dir, sid, in)
+	}
+	ctx := context.Background()
+	pk, pv := hx.Recover(func() {
+		store := fsdb.NewFsDb()
+		store.Connect(ctx, dir)
+		pe := persist.NewPersister(store)
+		if flush {
+			pe = pe.WithFlush()
+		}
+		en := engine.NewEngine(fcCfg(sid), fcResource()).WithPersister(pe)
+		en.Exec(ctx, []byte(inputs[len(inputs)-1]))
+		en.Flush(ctx, bytes.NewBuffer(nil))
+		if inject {
+			away := filepath.Join(base, "away")
+			os.Rename(dir, away)
+			failed = en.Finish(ctx) != nil
+			os.Rename(away, dir)
+		}
+		en.Finish(ctx)
+	})
+	if pk {
+		return failed, fmt.Sprintf("PANIC %v", pv), nil
+	}
+	snap, _ = fcSnapshot(dir, sid)
+	return failed, snap, nil
+}
+
 // ---- materialising crash states ------------------------------------------------------------
 
 type fcOp struct {
@@ -1236,6 +1278,26 @@ func runFsCrash(o opts) error {
 			w.Add(hx.Case{Term: term, Kind: "killed-at-" + name, Key: pr.key("kill-" + name),
 				Desc: map[string]interface{}{"session": pr.sid, "history": pr.hist, "after_crash_input": pr.input, "kind": kind, "killed_on_entry_to": name}})
 		}
+	}
+
+	// (2c) a save that fails and is retried by the same engine (with and without the persister's flush)
+	nretry := 4 + o.n/10
+	for i := 0; i < nretry; i++ {
+		r := hx.Rng(o.seed, "fscrash-retry", i)
+		sid := []string{"s0", "ab", "x.y", "sess"}[r.Intn(4)]
+		ins := fcGenInputs(r, 2+r.Intn(4))
+		flush := i%2 == 0
+		failed, got, err := fcRetry(sid, ins, flush, true)
+		if err != nil {
+			return err
+		}
+		_, want, err := fcRetry(sid, ins, flush, false)
+		if err != nil {
+			return err
+		}
+		w.Add(hx.Case{Term: fmt.Sprintf("FRetry %s %s %s", hx.Bool(failed), hx.S(got), hx.S(want)), Kind: "failed-save-retried",
+			Key:  fmt.Sprintf("retry-%s-%v-%v", sid, ins, flush),
+			Desc: map[string]interface{}{"session": sid, "history": ins, "with_flush": flush, "first_finish_failed": failed, "stored_after_retry": got, "stored_without_failure": want}})
 	}
 
 	// (3) self-test: the operation list before the repair must be flagged
